@@ -10,7 +10,16 @@
 mod audit;
 mod desc;
 mod gen;
+#[cfg(not(feature = "r10"))]
 mod gen_r7;
+#[cfg(not(feature = "r10"))]
+pub(crate) use gen_r7 as g;
+#[cfg(feature = "r10")]
+mod gen_r10;
+#[cfg(feature = "r10")]
+pub(crate) use gen_r10 as g;
+
+pub const ENGINE: &str = if cfg!(feature = "r10") { "worldsim10" } else { "worldsim" };
 mod medium;
 mod obs;
 mod ops;
@@ -292,7 +301,7 @@ fn emit(out: &mut impl Write, tag: &str, v: &impl Serialize) {
 
 fn replay_of(a: &Args, index: u64, sub: Option<String>, run_seed: u64, nslots: u8, ops: &[Op], r: &RunOut) -> Replay {
     Replay {
-        engine: "worldsim".into(),
+        engine: ENGINE.into(),
         profile: a.profile.clone(),
         seed: a.seed,
         index,
@@ -409,7 +418,7 @@ fn attempt_header(a: &Args, out: &mut impl Write, index: u64, sub: &str, run_see
     if let Some(want) = &a.emit_sub {
         if want == sub {
             return Some(Replay {
-                engine: "worldsim".into(),
+                engine: ENGINE.into(),
                 profile: a.profile.clone(),
                 seed: a.seed,
                 index,
@@ -451,8 +460,8 @@ fn c17_target(rng: &mut Rng, which: usize) -> Op {
     match which {
         0 => Op::Remove { slot: 0, pick },
         1 => Op::Clear { slot: 0 },
-        2 => Op::Entry { slot: 0, pick, steps: vec![(true, rng.below(gen_r7::NC as u64) as u8, rng.next_u64())] },
-        3 => Op::Entry { slot: 0, pick, steps: vec![(false, rng.below(gen_r7::NC as u64) as u8, 0)] },
+        2 => Op::Entry { slot: 0, pick, steps: vec![(true, rng.below(g::NC as u64) as u8, rng.next_u64())] },
+        3 => Op::Entry { slot: 0, pick, steps: vec![(false, rng.below(g::NC as u64) as u8, 0)] },
         4 => Op::DropWorld { slot: 0 },
         5 => Op::Clone { src: 0, dst: 1 },
         6 => Op::CloneFrom { src: 0, dst: 1 },
@@ -460,15 +469,15 @@ fn c17_target(rng: &mut Rng, which: usize) -> Op {
         8 => Op::DebugFmt { slot: 0 },
         9 => Op::RoundTrip { src: 0, dst: 1, enc: rng.below(3) as u8 },
         10 => Op::RoundTrip { src: 0, dst: 0, enc: rng.below(3) as u8 },
-        11 => Op::Extend { slot: 0, how: 1, site: rng.below(gen_r7::CLONED_SITES.len() as u64) as u16, n: rng.range(1, 4) as u16, extra: 0, seed: rng.next_u64() },
+        11 => Op::Extend { slot: 0, how: 1, site: rng.below(g::CLONED_SITES.len() as u64) as u16, n: rng.range(1, 4) as u16, extra: 0, seed: rng.next_u64() },
         12 => Op::Crash { slot: 0 },
         _ => Op::Entry {
             slot: 0,
             pick,
             steps: vec![
-                (true, rng.below(gen_r7::NC as u64) as u8, rng.next_u64()),
-                (false, rng.below(gen_r7::NC as u64) as u8, 0),
-                (true, rng.below(gen_r7::NC as u64) as u8, rng.next_u64()),
+                (true, rng.below(g::NC as u64) as u8, rng.next_u64()),
+                (false, rng.below(g::NC as u64) as u8, 0),
+                (true, rng.below(g::NC as u64) as u8, rng.next_u64()),
             ],
         },
     }
@@ -623,7 +632,7 @@ fn main() {
     simcore::install_panic_hook(a.verbose);
     let stdout = std::io::stdout();
     let mut out = stdout.lock();
-    writeln!(out, "HELLO worldsim registry={} arena={}", gen_r7::NAME, arena::audits_enabled()).unwrap();
+    writeln!(out, "HELLO {} registry={} arena={}", ENGINE, g::NAME, arena::audits_enabled()).unwrap();
     out.flush().unwrap();
     // Warm up the panic machinery outside any run.
     let _ = std::panic::catch_unwind(|| std::panic::panic_any(fault::Injected { kind: fault::Kind::Clone, k: 0 }));
@@ -663,7 +672,7 @@ fn main() {
             let cfg = gen::make_config(&a.profile, run_seed, a.thorough);
             let ops = gen::gen_history(&cfg, run_seed);
             let rep = Replay {
-                engine: "worldsim".into(),
+                engine: ENGINE.into(),
                 profile: a.profile.clone(),
                 seed: a.seed,
                 index: a.index,
